@@ -2,3 +2,6 @@ import BalmProofs.Props.C08
 #print axioms Balm.Cand.regenTop_complete
 #print axioms Balm.Cand.complete_solve
 #print axioms Balm.Cand.original_tie_unsound
+#print axioms Balm.Impl.mem_reachSet
+#print axioms Balm.Impl.attractors_sound
+#print axioms Balm.Impl.attractors_complete
